@@ -1,6 +1,6 @@
 CONSTANTS
-  Alpha = {97, 32, 10, 233, 36947}
-  MaxLen = 6
+  Alpha = {97, 32, 10, 13, 233, 36947}
+  MaxLen = 5
 INIT Init
 NEXT Next
 CHECK_DEADLOCK FALSE
